@@ -1,23 +1,66 @@
 """C02 - every request is answered exactly once, even when backends fail.
 
-spec/redis/Upstream.tla (one backend connection: senders, writer, reader, Start tail, Stop, backend, reset)
- 1. exhaustive TLC run of the repaired design (safety + liveness under fairness);
- 2. the three pinned-code variants (Fix* = FALSE) must each still yield their counterexample
-    (the loss windows stay reachable in the model: anti-vacuity);
- 3. spec -> code: TLC simulation emits behaviours (UpstreamGen.tla); each is forced on the real
-    goroutines of a real Redis processor through the verifhook gates, the client's queue lengths,
-    latches and completion counts are compared with the model after every step, and at the end every
-    request must have got exactly one reply on its (open) downstream connection;
+spec/redis/Upstream.tla (one backend connection: senders, writer, reader, Start tail, Stop, backend, reset; requests
+redirected by -ASK and the writer's ASKING hand-over; the write buffer), spec/redis/UpstreamGen.tla (behaviour emitter,
+stratified over the fault point), spec/redis/UpstreamSplit.tla (a split request whose children are answered by different
+goroutines), cfg files MC_Upstream_*.cfg, Gen_Upstream*.cfg, MC_UpstreamSplit_*.cfg, Gen_UpstreamSplit.cfg
+ 1. exhaustive TLC runs of the repaired design (safety + liveness under fairness), with and without a request that
+    carries the asking mark;
+ 2. every broken variant must still yield its counterexample (anti-vacuity): the three pinned loss windows (Fix* = FALSE),
+    the unflushed buffer behind a filtered request, the ASKING hand-over that answers the placeholder instead of the
+    request in hand (AskAnswersInHand = FALSE), the child counter decremented and tested in two steps
+    (AtomicDecTest = FALSE);
+ 3. spec -> code: TLC simulation emits behaviours (UpstreamGen.tla) stratified over the point at which the fault strikes;
+    a mandatory stratum per named window is drawn from them every run; each behaviour is forced on the real goroutines of
+    a real Redis processor through the verifhook gates (several worker processes), the client's queue lengths, latches and
+    completion counts are compared with the model after every step, and at the end every request must have got exactly
+    one reply on its (open) downstream connection and the stopping call must have returned;
+ 3b-3e. scenarios at the real queue capacity (1024): full queues, a request held at the ASKING hand-over by a full
+    processing queue, split requests whose children fail, split requests whose last children are answered at the same
+    instant by different goroutines (vectors from UpstreamSplit.tla);
  4. code -> spec: free-running pipelines with faults (checks/pipeline driver), boundary trace validated
     by TLC against PipelineObs.tla.
 """
 import json
 import os
+import random
+import threading
+import time
 
 import kit
 from checks import pipeline
 
 LEVEL = "model_checking"
+
+# named windows of Upstream.tla, most specific first (the first one a violating behaviour passed through names the signature)
+WINDOWS = ["W_AskHandoffQuit", "W_ReaderWaitsForHandoff", "W_ReaderHoldsReplyAtQuit", "W_EnqueueAfterDrain",
+           "W_WriterHandoffQuit", "W_CheckedThenQuit", "W_AskHandoffBlocked", "W_SenderBlockedOnDeadQueue"]
+# windows that depend on the scaled queue capacity of the model: the real queues (1024) are neither full nor blocking in a
+# replay of three requests; they are exercised at the real capacity by c02-fullqueue / c02-askfull
+SCALED_ONLY = {"W_AskHandoffBlocked", "W_SenderBlockedOnDeadQueue"}
+MANDATORY = [w for w in WINDOWS if w not in SCALED_ONLY]
+
+
+class Bg(threading.Thread):
+    """run fn in the background; join() re-raises what it raised"""
+
+    def __init__(self, fn, *a, **kw):
+        super().__init__(daemon=True)
+        self.fn, self.a, self.kw = fn, a, kw
+        self.result, self.exc = None, None
+        self.start()
+
+    def run(self):
+        try:
+            self.result = self.fn(*self.a, **self.kw)
+        except BaseException as e:  # noqa: re-raised by wait()
+            self.exc = e
+
+    def wait(self):
+        self.join()
+        if self.exc is not None:
+            raise self.exc
+        return self.result
 
 
 def gen_behaviours(ctx, cfg, num, depth, seed):
@@ -25,79 +68,346 @@ def gen_behaviours(ctx, cfg, num, depth, seed):
                 seed=seed, deadlock=False, timeout=300)
     if r.timeout or (r.error and "@@BEH" not in r.stdout):
         raise kit.Inconclusive("behaviour generation failed: " + r.error[:500])
-    behs = [p for (tag, p) in r.prints if tag == "BEH"]
-    return behs
+    return [p for (tag, p) in r.prints if tag == "BEH" and isinstance(p, dict)]
+
+
+def beh_key(b):
+    return json.dumps([(s["a"], s["r"]) for s in b["steps"]])
+
+
+def beh_windows(b):
+    w = set()
+    for s in b["steps"]:
+        w.update(s.get("win") or [])
+    return w
+
+
+def select_behaviours(ctx, behs, per_window, per_point, total):
+    """mandatory strata: per_window behaviours through every named window, per_point behaviours per fault point, the rest
+    at random; deterministic in (seed, tier)"""
+    rnd = random.Random(ctx.seed)
+    uniq, seen = [], set()
+    for b in behs:
+        k = beh_key(b)
+        if k not in seen:
+            seen.add(k)
+            uniq.append(b)
+    order = list(range(len(uniq)))
+    rnd.shuffle(order)
+    wins = [beh_windows(b) for b in uniq]
+    chosen, chosen_set, label = [], set(), {}
+    missing = []
+
+    def take(i, why):
+        if i not in chosen_set:
+            chosen_set.add(i)
+            chosen.append(i)
+            label[i] = why
+
+    for w in WINDOWS:
+        have = [i for i in order if w in wins[i]]
+        if not have and w in MANDATORY:
+            missing.append(w)
+        got = sum(1 for i in chosen if w in wins[i])
+        for i in have:
+            if got >= per_window:
+                break
+            if i not in chosen_set:
+                take(i, w)
+                got += 1
+    if missing:
+        raise kit.Inconclusive("no generated behaviour passes through the windows %s" % missing)
+    points = sorted({b["at"] for b in uniq})
+    for p in points:
+        got = sum(1 for i in chosen if uniq[i]["at"] == p)
+        for i in order:
+            if got >= per_point:
+                break
+            if uniq[i]["at"] == p and i not in chosen_set:
+                take(i, "at:" + p)
+                got += 1
+    for i in order:
+        if len(chosen) >= total:
+            break
+        take(i, "fill")
+    out = []
+    for i in chosen:
+        b = dict(uniq[i])
+        b["stratum"] = label[i]
+        b["windows"] = sorted(wins[i])
+        out.append(b)
+    return out, len(uniq)
+
+
+def primary_window(windows):
+    for w in WINDOWS:
+        if w in windows:
+            # one class, one name: the reader holds a decoded reply that it cannot pair while the connection quits
+            return "W_ReaderWaitsForHandoff" if w == "W_ReaderHoldsReplyAtQuit" else w
+    return "no-window"
+
+
+def own_children(match):
+    """pids of direct children of this process whose command line contains `match` (never pkill: other checks run beside us)"""
+    me, out = os.getpid(), []
+    for d in os.listdir("/proc"):
+        if not d.isdigit():
+            continue
+        try:
+            with open("/proc/%s/stat" % d) as f:
+                ppid = int(f.read().rsplit(")", 1)[1].split()[1])
+            if ppid != me:
+                continue
+            with open("/proc/%s/cmdline" % d, "rb") as f:
+                cmd = f.read().replace(b"\0", b" ").decode("utf-8", "replace")
+            if match in cmd:
+                out.append(int(d))
+        except (OSError, ValueError, IndexError):
+            continue
+    return out
+
+
+def kill_own(match):
+    import signal
+    for pid in own_children(match):
+        try:
+            os.kill(pid, signal.SIGKILL)
+        except OSError:
+            pass
+
+
+def finish_pipeline(ctx, job, label):
+    """the free-running driver is shared with C01/C20 and has no deadline of its own: a regression that wedges a backend
+    connection can leave it waiting for ever. Violations observed by the other stages stand; the driver is given a grace
+    period and is then killed (our own child only)."""
+    grace = 8 if ctx.violations else (3000 if ctx.thorough else 300)
+    job.join(grace)
+    if job.is_alive():
+        kill_own("pipe-%s.ndjson" % label)
+        job.join(30)
+        if ctx.violations:
+            ctx.notes.append("the free-running pipeline driver did not finish within %d s after the other stages and was stopped" % grace)
+            return
+        raise kit.Inconclusive("the free-running pipeline driver did not finish within %d s and was stopped" % grace)
+    try:
+        job.wait()
+    except kit.Inconclusive:
+        if not ctx.violations:
+            raise
+        ctx.notes.append("pipeline stage inconclusive after violations")
+
+
+def replay_sharded(ctx, behs, shards, attempts):
+    """forced replay in `shards` worker processes (the hook scheduler is process wide); returns results by behaviour index"""
+    bfile = os.path.join(ctx.work, "behaviours.ndjson")
+    kit.write_ndjson(bfile, [b["steps"] for b in behs])
+    jobs = []
+    for k in range(shards):
+        rfile = os.path.join(ctx.work, "replay-%d.ndjson" % k)
+        jobs.append((rfile, Bg(ctx.harness, ["c02-replay", "-in", bfile, "-out", rfile, "-attempts", str(attempts),
+                                             "-shard", str(k), "-of", str(shards), "-stopafter", "1"],
+                               timeout=1500, allow_fail=True)))
+    t0 = time.time()
+    results, crashes = {}, []
+    for rfile, job in jobs:
+        rc, so, se = job.wait()
+        recs = kit.read_ndjson(rfile) if os.path.exists(rfile) else []
+        started = None
+        for r in recs:
+            if r.get("started"):
+                started = r["id"]
+                continue
+            results[r["id"]] = r
+            started = None
+        if rc != 0:
+            crashes.append((rc, se, started))
+    kit.log("[go] c02-replay: %d behaviours in %d worker processes, %.1fs" % (len(behs), shards, time.time() - t0))
+    return results, crashes
 
 
 def run(ctx):
     ctx.build()
     ctx.assumptions += [
-        "channel capacities scaled from 1024 to QCap=1..2 in the exhaustive model",
-        "one backend connection per model instance; redirection resends are covered by C04",
+        "channel capacities scaled from 1024 to QCap=1..2 in the exhaustive model (the scenarios c02-fullqueue and c02-askfull run at the real capacity)",
+        "one backend connection per model instance; a request redirected by -ASK enters it with the asking mark; other resends are covered by C04",
         "kernel TCP behaviour on loopback (RST after SO_LINGER 0) is trusted",
+        "the write buffer (4096 bytes) holds fewer requests than the processing queue has entries (BufCap < QCap in the exhaustive runs with an asking request)",
     ]
-    # 1. exhaustive, repaired design
-    cfg = "MC_Upstream_fixed.cfg" if ctx.thorough else "MC_Upstream_fixed_quick.cfg"
-    r = ctx.mc("redis", "Upstream", cfg, workers=8, timeout=1500, coverage=not ctx.thorough)
-    if r.coverage:
-        ctx.check_vacuity(r, "Upstream", ignore=("WriterFiltered",))  # exercised by MC_Upstream_banned_*.cfg
-    # 2. the loss windows of the pinned code are still reachable in the model
+    # 3. behaviours for the forced replay: generated first, the replay is the longest chain of this check
+    num = 6000 if ctx.thorough else 1500
+    gen_jobs = [Bg(gen_behaviours, ctx, "Gen_Upstream.cfg", num, 160, ctx.seed),
+                Bg(gen_behaviours, ctx, "Gen_Upstream_ask.cfg", num, 160, ctx.seed + 1)]
+    # 3b-3e. scenarios at the real queue capacity, beside the model checking
+    scen_jobs = start_scenarios(ctx)
+    # 4. (runs beside everything else) free-running pipelines with faults, trace validated against PipelineObs
+    pipe_job = Bg(pipeline.run_pipelines, ctx, faults=True, label="c02")
+    try:
+        run_stages(ctx, gen_jobs, scen_jobs, pipe_job, num)
+    finally:
+        if pipe_job.is_alive():   # never leave the shared driver behind (it has no deadline of its own)
+            kill_own("pipe-c02.ndjson")
+
+
+def run_stages(ctx, gen_jobs, scen_jobs, pipe_job, num):
+    # 1. exhaustive, repaired design; 2. the broken variants still yield their counterexamples
+    lost = ["NoLostRequest", "NoStuckSender", "TEMPORAL"]
+    mcs = [("Upstream", "MC_Upstream_fixed.cfg" if ctx.thorough else "MC_Upstream_fixed_quick.cfg", None, 6, not ctx.thorough)]
     for variant in ("handoff", "send", "reader"):
-        ctx.mc("redis", "Upstream", "MC_Upstream_%s.cfg" % variant, workers=4, timeout=300,
-               expect_violated=["NoLostRequest", "NoStuckSender", "TEMPORAL"], count=False)
-    # 2b. a request answered by the filter chain itself (command disabled in compress mode) behind buffered requests
-    ctx.mc("redis", "Upstream", "MC_Upstream_banned_fixed.cfg", workers=6, timeout=600)
-    ctx.mc("redis", "Upstream", "MC_Upstream_banned_pinned.cfg", workers=4, timeout=300,
-           expect_violated=["NoLostRequest", "TEMPORAL"], count=False)
-    # 3. forced replay of TLC behaviours
-    num = 400 if ctx.thorough else 45
-    behs = gen_behaviours(ctx, "Gen_Upstream.cfg", num, 160, ctx.seed)
+        mcs.append(("Upstream", "MC_Upstream_%s.cfg" % variant, lost, 2, False))
+    # a request answered by the filter chain itself (command disabled in compress mode) behind buffered requests
+    mcs.append(("Upstream", "MC_Upstream_banned_fixed.cfg", None, 3, False))
+    mcs.append(("Upstream", "MC_Upstream_banned_pinned.cfg", lost, 2, False))
+    # a request with the asking mark: the ASKING hand-over
+    if ctx.thorough:
+        mcs.append(("Upstream", "MC_Upstream_ask_fixed.cfg", None, 3, False))
+        mcs.append(("Upstream", "MC_Upstream_ask3_stop.cfg", None, 4, False))   # three requests: the full processing queue at the ASKING hand-over
+    else:
+        mcs.append(("Upstream", "MC_Upstream_ask_stop.cfg", None, 3, False))
+        mcs.append(("Upstream", "MC_Upstream_ask_reset.cfg", None, 2, False))
+    mcs.append(("Upstream", "MC_Upstream_ask_broken.cfg", lost, 2, False))
+    # a split request: the last children answered by different goroutines
+    mcs.append(("UpstreamSplit", "MC_UpstreamSplit_fixed.cfg", None, 2, False))
+    mcs.append(("UpstreamSplit", "MC_UpstreamSplit_broken.cfg", ["ParentAtMostOnce"], 2, False))
+    mc_jobs = [(m, cfg, exp, Bg(ctx.mc, "redis", m, cfg, workers=wk, timeout=1500, coverage=cov, expect_violated=exp, count=False))
+               for (m, cfg, exp, wk, cov) in mcs]
+    behs = []
+    for j in gen_jobs:
+        behs += j.wait()
     if len(behs) < num // 2:
         raise kit.Inconclusive("only %d behaviours emitted" % len(behs))
-    bfile = os.path.join(ctx.work, "behaviours.ndjson")
-    kit.write_ndjson(bfile, behs)
-    rfile = os.path.join(ctx.work, "replay.ndjson")
-    rc, so, se = ctx.harness(["c02-replay", "-in", bfile, "-out", rfile, "-attempts", "3" if ctx.thorough else "2"],
-                             timeout=3000, allow_fail=True)
-    results = kit.read_ndjson(rfile) if os.path.exists(rfile) else []
-    if rc != 0:
-        crashed = len(results)
+    chosen, n_uniq = select_behaviours(ctx, behs, per_window=40 if ctx.thorough else 10, per_point=12 if ctx.thorough else 2,
+                                       total=500 if ctx.thorough else 88)
+    replay_job = Bg(replay_sharded, ctx, chosen, 10 if ctx.thorough else 8, 3)
+
+    for m, cfg, exp, job in mc_jobs:
+        r = job.wait()
+        if exp is None:
+            ctx.cov["states"] += r.distinct
+            ctx.cov["transitions"] += r.generated
+        if r.coverage:
+            ctx.check_vacuity(r, m, ignore=("WriterFiltered", "WriterAsk"))  # exercised by MC_Upstream_banned_*.cfg / MC_Upstream_ask_*.cfg
+    judge_replays(ctx, chosen, n_uniq, *replay_job.wait())
+    judge_scenarios(ctx, scen_jobs)
+    finish_pipeline(ctx, pipe_job, "c02")
+    ctx.cov["rule"] = ("behaviours = TLC simulation of UpstreamGen (seeded), stratified over the fault point; a mandatory stratum per named "
+                       "window is drawn every run; distinct by action sequence; non-trivial = contains a connection reset or a Stop; each is "
+                       "forced on the real goroutines and judged by 'every request gets exactly one reply'")
+
+
+def judge_replays(ctx, behs, n_uniq, results, crashes):
+    for rc, se, started in crashes:
+        beh = behs[started - 1] if started and started <= len(behs) else None
         if "close of closed channel" in se:
-            beh = behs[crashed] if crashed < len(behs) else None
-            ctx.violation("double-completion", "a request was completed twice: the processor panicked (close of closed channel)",
+            wins = primary_window(beh["windows"]) if beh else "no-window"
+            ctx.violation("double-completion/" + wins, "a request was completed twice: the processor panicked (close of closed channel)",
                           {"behaviour": beh, "stderr": se[-2000:]})
         else:
             raise kit.Inconclusive("c02-replay exited %d: %s" % (rc, se[-1500:]))
-    exact = 0
-    for res, beh in zip(results, behs):
-        if res.get("err"):
-            ctx.notes.append("replay %d: %s" % (res["id"], res["err"]))
+    exact = good = skipped = 0
+    strata = {}
+    for idx, beh in enumerate(behs, start=1):
+        res = results.get(idx)
+        if res is None:
             continue
-        key = [(s["a"], s["r"]) for s in beh]
-        ctx.case(key=key, nontrivial=any(s["a"] in ("BackendReset", "CallStop") for s in beh))
+        if res.get("skipped"):
+            skipped += 1
+            continue
+        if res.get("err"):
+            ctx.notes.append("replay %d: %s" % (idx, res["err"]))
+            continue
+        good += 1
+        for n in res.get("notes") or []:
+            ctx.notes.append("replay %d: %s" % (idx, n))
+        key = [(s["a"], s["r"]) for s in beh["steps"]]
+        ctx.case(key=key, nontrivial=any(s["a"] in ("BackendReset", "CallStop") for s in beh["steps"]))
         if res["exact"]:
             exact += 1
             ctx.cov["traces_validated_against_impl"] += 1
-        wins = "+".join(sorted(res.get("windows") or [])) or "no-window"
+            for w in beh["windows"]:
+                strata[w] = strata.get(w, 0) + 1
+        seen = res.get("windows") or []
+        win = primary_window(seen)
+        art = {"behaviour": beh, "result": res}
         if res.get("lost"):
-            ctx.violation("lost-request/" + wins,
-                          "request(s) %s never answered on an open connection (windows: %s)" % (res["lost"], wins),
-                          {"behaviour": beh, "result": res})
+            ctx.violation("lost-request/" + win,
+                          "request(s) %s never answered on an open connection (windows passed: %s; fault point %s)" % (
+                              res["lost"], "+".join(seen) or "none", beh["at"]), art)
         if res.get("double") or any(res.get("extra", {}).values()):
-            ctx.violation("double-reply/" + wins, "request answered more than once: %s %s" % (res.get("double"), res.get("extra")),
-                          {"behaviour": beh, "result": res})
+            ctx.violation("double-reply/" + win, "request answered more than once: %s %s" % (res.get("double"), res.get("extra")), art)
         if res.get("stopperHung"):
-            ctx.violation("client-stop-hangs/" + wins, "client.Stop (host removal) did not return", {"behaviour": beh, "result": res})
-    good = [r for r in results if not r.get("err")]
-    ctx.cov["replay"] = {"behaviours": len(behs), "replayed": len(good), "followed_exactly": exact,
-                         "diverged_at_a_go_select": len(good) - exact}
-    if behs:
-        ctx.sample({"behaviour": [(s["a"], s["r"]) for s in behs[0]], "result": results[0] if results else None})
-    if len(good) < len(behs) * 0.8 or exact < len(good) * 0.3:
-        raise kit.Inconclusive("replay driver unhealthy: %d behaviours, %d replayed, %d exact" % (len(behs), len(good), exact))
-    # 3b. full queues: 1024 requests written and unanswered, 1024 pending, senders blocked behind them; then a fault
+            ctx.violation("client-stop-hangs/" + win,
+                          "client.Stop (host removal) did not return: the backend connection never finished its drain "
+                          "(windows passed: %s; fault point %s)" % ("+".join(seen) or "none", beh["at"]), art)
+    ctx.cov["replay"] = {"behaviours_generated_distinct": n_uniq, "behaviours": len(behs), "replayed": good, "followed_exactly": exact,
+                         "diverged_at_a_go_select": good - exact, "not_run_after_a_violation": skipped,
+                         "followed_exactly_per_window": strata,
+                         "mandatory_strata": {w: sum(1 for b in behs if w in b["windows"]) for w in WINDOWS}}
+    if behs and results:
+        ctx.sample({"behaviour": [(s["a"], s["r"]) for s in behs[0]["steps"]], "stratum": behs[0]["stratum"], "result": results.get(1)})
+    if ctx.violations:
+        return
+    if good < len(behs) * 0.8 or exact < good * 0.3:
+        raise kit.Inconclusive("replay driver unhealthy: %d behaviours, %d replayed, %d exact" % (len(behs), good, exact))
+    thin = [w for w in MANDATORY if strata.get(w, 0) < 1]
+    if thin:
+        ctx.notes.append("no behaviour of the strata %s was followed exactly (Go select picked the other branch every time)" % thin)
+
+
+# --------------------------------------------------------------------------- scenarios at the real capacity
+
+def split_vectors(ctx):
+    """vectors of UpstreamSplit.tla: every reachable way in which the last children of a split request are answered at the
+    same instant (exhaustive run, one line per state of the window)"""
+    r = ctx.tlc("redis", "UpstreamSplit", "Gen_UpstreamSplit.cfg", workers=2, timeout=300)
+    if r.timeout or r.error or r.violated:
+        raise kit.Inconclusive("UpstreamSplit vector generation failed: %s %s" % (r.error[:500], r.violated))
+    vecs, seen = [], set()
+    for tag, p in r.prints:
+        if tag == "SPLIT" and isinstance(p, dict):
+            k = json.dumps(p, sort_keys=True)
+            if k not in seen:
+                seen.add(k)
+                vecs.append(p)
+    vecs.sort(key=lambda v: json.dumps(v, sort_keys=True))
+    if len(vecs) < 4:
+        raise kit.Inconclusive("UpstreamSplit emitted only %d vectors" % len(vecs))
+    return vecs
+
+
+def concurrent_children(ctx):
+    """3e. the last children of a split request answered at the same instant by different goroutines"""
+    vecs = split_vectors(ctx)
+    replies = [v for v in vecs if "drain" not in v["modes"]]
+    drains = [v for v in vecs if "drain" in v["modes"]]
+    if not ctx.thorough:
+        rnd = random.Random(ctx.seed)
+        rnd.shuffle(drains)
+        drains = drains[:8]
+    chosen = replies + drains
+    vfile = os.path.join(ctx.work, "split-vectors.ndjson")
+    kit.write_ndjson(vfile, chosen)
+    cfile = os.path.join(ctx.work, "concurrent.ndjson")
+    rc, so, se = ctx.harness(["c02-concurrent", "-in", vfile, "-out", cfile, "-rounds", "2000" if ctx.thorough else "200",
+                              "-drainrounds", "100" if ctx.thorough else "20"], timeout=1200, allow_fail=True)
+    return len(vecs), chosen, cfile, rc, se
+
+
+def start_scenarios(ctx):
+    jobs = {}
     qfile = os.path.join(ctx.work, "fullqueue.ndjson")
-    ctx.harness(["c02-fullqueue", "-out", qfile], timeout=600)
+    jobs["fullqueue"] = (qfile, Bg(ctx.harness, ["c02-fullqueue", "-out", qfile], timeout=600))
+    mfile = os.path.join(ctx.work, "multifail.ndjson")
+    jobs["multifail"] = (mfile, Bg(ctx.harness, ["c02-multifail", "-out", mfile], timeout=600, allow_fail=True))
+    afile = os.path.join(ctx.work, "askfull.ndjson")
+    jobs["askfull"] = (afile, Bg(ctx.harness, ["c02-askfull", "-out", afile], timeout=600))
+    jobs["concurrent"] = (None, Bg(concurrent_children, ctx))
+    return jobs
+
+
+def judge_scenarios(ctx, jobs):
+    # 3b. full queues: 1024 requests written and unanswered, 1024 pending, senders blocked behind them; then a fault
+    qfile, job = jobs["fullqueue"]
+    job.wait()
     for r in kit.read_ndjson(qfile):
         if r.get("err"):
             ctx.notes.append("fullqueue: " + r["err"])
@@ -110,8 +420,8 @@ def run(ctx):
                           "%d of %d requests on open connections never answered after '%s' with full backend queues (%s)" % (
                               r["unanswered"], r["sent"], r["fault"], r.get("firstLost")), r)
     # 3c. split requests whose children fail (several / all of them, for different reasons): one reply, no crash
-    mfile = os.path.join(ctx.work, "multifail.ndjson")
-    rc, so, se = ctx.harness(["c02-multifail", "-out", mfile], timeout=600, allow_fail=True)
+    mfile, job = jobs["multifail"]
+    rc, so, se = job.wait()
     recs = kit.read_ndjson(mfile) if os.path.exists(mfile) else []
     if rc != 0:
         if "close of closed channel" in se:
@@ -124,7 +434,53 @@ def run(ctx):
         ctx.case(key=["multifail", r["case"], r["cmd"]], nontrivial=True)
         if not r["ok"]:
             ctx.violation("split-request/%s" % r["case"], "%s %s: %s (replies %s)" % (r["case"], r["cmd"], r["why"], r["replies"]), r)
-    # 4. free-running pipelines with faults, boundary trace validated against PipelineObs
-    pipeline.run_pipelines(ctx, faults=True, label="c02")
-    ctx.cov["rule"] = ("behaviours = TLC simulation of UpstreamGen (seeded); distinct by action sequence; non-trivial = contains a "
-                       "connection reset or a Stop; each is forced on the real goroutines and judged by 'every request gets exactly one reply'")
+    # 3d. a redirected request held at the ASKING hand-over by a full processing queue (1024 unanswered requests), then a fault
+    afile, job = jobs["askfull"]
+    job.wait()
+    for r in kit.read_ndjson(afile):
+        if r.get("err"):
+            ctx.notes.append("askfull/%s: %s" % (r["fault"], r["err"]))
+            continue
+        ctx.case(key=["askfull", r["fault"]], nontrivial=r["held"], n=r["sent"] + 1)
+        if not r["held"]:
+            ctx.notes.append("askfull/%s: the writer was not held at the ASKING hand-over (took the request: %s)" % (r["fault"], r["writerTook"]))
+        if not r["askAnswered"]:
+            ctx.violation("lost-request/ask-handover-full-queue/" + r["fault"],
+                          "a request redirected by -ASK, held by the backend writer at the ASKING hand-over (processing queue full: %d "
+                          "unanswered requests), was never answered on its open connection after '%s'" % (r["nodeSaw"], r["fault"]), r)
+        if r["unanswered"] > 0:
+            ctx.violation("lost-request/full-queues/" + r["fault"],
+                          "%d of %d requests on open connections never answered after '%s' with a full processing queue (%s)" % (
+                              r["unanswered"], r["sent"], r["fault"], r.get("firstLost")), r)
+    # 3e. the last children of a split request answered at the same instant by different goroutines
+    _, job = jobs["concurrent"]
+    n_vecs, chosen, cfile, rc, se = job.wait()
+    recs = kit.read_ndjson(cfile) if os.path.exists(cfile) else []
+    if rc != 0:
+        if "close of closed channel" in se:
+            ctx.violation("double-completion/concurrent-children",
+                          "a split request was completed twice when its last children were answered at the same instant: the processor "
+                          "panicked (close of closed channel) after %d vectors" % len(recs), {"stderr": se[-2500:], "completed": recs[-2:]})
+        else:
+            raise kit.Inconclusive("c02-concurrent exited %d: %s" % (rc, se[-1500:]))
+    rounds = aligned = 0
+    for r in recs:
+        v = r["vector"]
+        rounds += r["requests"]
+        aligned += r["aligned"]
+        if r.get("err"):
+            ctx.notes.append("concurrent %s: %s" % (json.dumps(v), r["err"]))
+        ctx.case(key=["concurrent", v], nontrivial=r["aligned"] > 0, n=r["requests"])
+        how = "children on connections %s answered by %s, children %s at the same instant" % (v["place"], v["modes"], v["group"])
+        if r["double"]:
+            ctx.violation("double-completion/concurrent-children",
+                          "'%s' was completed a second time (%s; request %d of this vector; the second caller was stopped in front "
+                          "of the close that panics)" % (r.get("doubleCmd"), how, r["requests"]), r)
+        if r["lost"]:
+            ctx.violation("lost-request/concurrent-children", "%s (%s)" % (r.get("firstBad"), how), r)
+        if r["extra"]:
+            ctx.violation("double-reply/concurrent-children", "%s (%s)" % (r.get("firstBad"), how), r)
+    ctx.cov["concurrent_children"] = {"vectors_of_UpstreamSplit": n_vecs, "vectors_run": len(recs), "split_requests": rounds,
+                                      "lined_up_inside_SetResponse": aligned}
+    if recs and not ctx.violations and aligned < rounds * 0.5:
+        ctx.notes.append("concurrent children: only %d of %d requests lined up" % (aligned, rounds))
